@@ -68,7 +68,7 @@ Clause(name, ok, tag, k) == ok \/ PrintT(<<"VIOL", name, k, tag>>)
 \* ---------------------------------------------------------------- ghosts
 G0 == [tr |-> -1, brought |-> 0, taken |-> 0, banks |-> <<>>, bankIds |-> {}, lastGc |-> 0, gids |-> {}, handLive |-> FALSE,
        handIds |-> <<>>, openBank |-> <<>>, openBlind |-> <<>>, openLabels |-> <<>>, lastParts |-> {}, afterBank |-> <<>>, afterIds |-> {},
-       missed |-> <<>>, missedIds |-> {}, ext |-> FALSE, extSetup |-> FALSE, openWin |-> {}, botCalls |-> {}, leavePending |-> {}, closedBetween |-> FALSE, lastStatus |-> "none",
+       missed |-> <<>>, missedIds |-> {}, ext |-> FALSE, extSetup |-> FALSE, openWin |-> {}, botCalls |-> {}, leavePending |-> {}, awaitFire |-> FALSE, closedBetween |-> FALSE, lastStatus |-> "none",
        cnt |-> <<>>, cntIds |-> {}, actEvents |-> <<>>, spyCalls |-> <<>>, inGate |-> "", blindSet |-> <<>>, blindSetInGate |-> FALSE,
        leftSince |-> {}, faults |-> 0, lastUpd |-> 0, kfMidLeave |-> FALSE,
        withholdSt |-> <<>>, settledSt |-> <<>>, openSt |-> <<>>, callQ |-> <<>>, pubH |-> <<>>, nospy |-> FALSE, ownTid |-> "", engineHand |-> <<>>, engineStatus |-> "none", lastGcSeen |-> 0, enginePlayers |-> 0, autoFails |-> 0, errEvents |-> 0, afterFire |-> FALSE, fireSt |-> <<>>]
@@ -159,7 +159,8 @@ Upd(gg, k) ==
       g7b == IF t.ev = "spy" /\ t.res = "fail" /\ t.a.kind \in {"readyall", "ante", "blinds", "next", "create"} THEN [g7 EXCEPT !.autoFails = @ + 1]
              ELSE IF t.ev = "cb:error" THEN [g7 EXCEPT !.errEvents = @ + 1] ELSE g7
       g7c == IF t.ev = "cb:updated" THEN [g7b EXCEPT !.engineHand = st.hand, !.engineStatus = st.status, !.lastGcSeen = st.gc, !.enginePlayers = Len(st.players)] ELSE g7b
-      g8 == IF t.ev = "hook" /\ t.a.kind = "continue.fire" THEN [g7c EXCEPT !.afterFire = TRUE, !.fireSt = <<st>>, !.extSetup = FALSE]
+      g8 == IF t.ev = "hook" /\ t.a.kind = "continue.fire" THEN [g7c EXCEPT !.afterFire = TRUE, !.fireSt = <<st>>, !.extSetup = FALSE, !.awaitFire = FALSE]
+            ELSE IF t.ev = "hook" /\ t.a.kind = "continue.reset" THEN [g7c EXCEPT !.afterFire = FALSE, !.awaitFire = TRUE]
             ELSE IF ~IsRet(t) /\ t.ev \notin {"actorview", "actorsdone"} THEN [g7c EXCEPT !.afterFire = FALSE] ELSE g7c
   IN g8
 
@@ -264,7 +265,8 @@ C20_engineIntact(t, gg) ==
     /\ \A i \in 1..Len(t.st.players) : t.st.players[i].bank >= 0
 C20_viewsIntact(t) == (t.ev = "actorview") => \A i \in 1..Len(t.st.players) : t.st.players[i].bank >= 0
 \* ---------------------------------------------------------------- C17 (calls routed through the manager)
-MgrLines == {"mgrprobe", "mgrclose", "mgrbystander"}
+MgrLines == {"mgrprobe", "mgrclose", "mgrbystander", "mgrrefused"}
+C17_refusedCreate(t) == (t.ev = "mgrrefused") => t.res \notin {"ok", "panic"}
 C17_bystandersUntouched(t) == (t.by # "") => t.by = "same"
 C17_ownTableOnly(t, gg) == (gg.ownTid # "" /\ t.ev \in {"cb:updated", "cb:state", "cb:error"} /\ t.st.status # "none") => t.st.tid = gg.ownTid
 C17_notFound(t) == (t.ev = "mgrprobe") => t.res = "ErrManagerTableNotFound"
@@ -370,6 +372,8 @@ C08_pauseIff(t, gg) ==
     IF ShouldPause(gg.fireSt[1])
     THEN t.ev = "cb:updated" /\ t.st.status = "table_pausing"
     ELSE t.ev = "hook" /\ t.a.kind = "continue.setup"
+\* after a settlement the continue handler runs (the table's own timer): the driver has waited for the engine to come to rest
+C08_continueRuns(t, gg) == (t.ev \in {"noopen", "stuck"} /\ ~gg.ext) => ~gg.awaitFire
 C08_gateParticipants(t) ==
   (t.ev = "hook" /\ t.a.kind = "continue.setup") =>
     (Cardinality(AliveInIds(t.st)) >= 2 => Len(t.st.gate.parts) >= 2)
@@ -530,7 +534,8 @@ CheckLine(k, gg) ==
   \* a public call that never returned (driver watchdog) in a scenario in which a backend call had been made to fail
   (t.ev = "hang" /\ Clause("C13_callsReturn", gg.faults = 0, "", k)) \/
   (t.ev \in MgrLines /\ Clause("C17_notFound", C17_notFound(t), "", k) /\ Clause("C17_closeRemoves", C17_closeRemoves(t), "", k)
-                    /\ Clause("C17_bystandersRemain", C17_bystandersRemain(t), "", k) /\ Clause("C17_bystandersUntouched", C17_bystandersUntouched(t), "", k)) \/
+                    /\ Clause("C17_bystandersRemain", C17_bystandersRemain(t), "", k) /\ Clause("C17_bystandersUntouched", C17_bystandersUntouched(t), "", k)
+                    /\ Clause("C17_refusedCreate", C17_refusedCreate(t), "", k)) \/
   (t.ev \in {"actorview", "actorsdone"} /\ Clause("C20_observerHidden", C20_observerHidden(t), "", k)
       /\ Clause("C20_otherActorsIntact", C20_otherActorsIntact(t, gg), "", k) /\ Clause("C20_engineIntact", C20_engineIntact(t, gg), "", k)
       /\ Clause("C20_viewsIntact", C20_viewsIntact(t), "", k)) \/
@@ -573,6 +578,7 @@ CheckLine(k, gg) ==
      /\ Clause("C07_noOpenOnBreak", C07_noOpenOnBreak(t), "", k)
      /\ Clause("C08_pauseIff", C08_pauseIff(t, gg), "", k)
      /\ Clause("C08_gateParticipants", C08_gateParticipants(t), "", k)
+     /\ Clause("C08_continueRuns", C08_continueRuns(t, gg), "", k)
      /\ Clause("C08_noWedge", C08_noWedge(t, gg), IF KF_RotationRefused(st) THEN "KF-C04-waiting-newcomer" ELSE "", k)
      /\ Clause("C10_acceptedLegal", C10_acceptedLegal(t), "", k)
      /\ Clause("C10_refusedNoTrace", C10_refusedNoTrace(t, gg), "", k)
